@@ -55,34 +55,40 @@ let split s = List.filter (fun x -> x <> "") (String.split_on_char ' ' (String.t
 
 (* a key reference of the wrong key type cannot be written in Rust; both drivers treat it as the Default key *)
 type keyv = char * z * z
-let resolve_k (want : char) (keys : (int, keyv) Hashtbl.t) (k : string) : z * z =
-  if k = "default" then (Z0, Z0)
+let resolve_k (want : char) (keys : (int, keyv) Hashtbl.t) (k : string) : z * z * z =
+  let none = (z_of_int (-1), Z0, Z0) in
+  if k = "default" then none
   else
     let i = int_of_string (String.sub k 1 (String.length k - 1)) in
-    (try let (c, s, g) = Hashtbl.find keys i in if c = want || want = '*' then (s, g) else (Z0, Z0)
-     with Not_found -> (Z0, Z0))
+    (try let (c, s, g) = Hashtbl.find keys i in if c = want || want = '*' then (z_of_int i, s, g) else none
+     with Not_found -> none)
+
+(* result of the most recent `ne` op of the case (used by `runne OFF FALLBACK`) *)
+let last_ne : z option ref = ref None
 
 let parse_op keys (ws : string list) : top =
   let z = z_of_string in
   match ws with
+  | ["runne"; off; fb] ->
+    (match !last_ne with Some t -> ORun (Z.add t (z off)) | None -> ORun (z fb))
   | ["add"; ns; cb] -> OAdd (z ns, z cb)
   | ["after"; d; cb] -> OAfter (z d, z cb)
   | ["addmax"; ns; cb] -> OAddMax (z ns, z cb)
   | ["addmin"; ns; cb] -> OAddMin (z ns, z cb)
-  | ["del"; k] -> let (s, g) = resolve_k 'F' keys k in ODel (s, g)
-  | ["delmax"; k] -> let (s, g) = resolve_k 'M' keys k in ODelMax (s, g)
-  | ["delmin"; k] -> let (s, g) = resolve_k 'N' keys k in ODelMin (s, g)
-  | ["modmax"; k; ns] -> let (s, g) = resolve_k 'M' keys k in OModMax (s, g, z ns)
-  | ["modmin"; k; ns] -> let (s, g) = resolve_k 'N' keys k in OModMin (s, g, z ns)
-  | ["actmax"; k] -> let (s, g) = resolve_k 'M' keys k in OActMax (s, g)
-  | ["actmin"; k] -> let (s, g) = resolve_k 'N' keys k in OActMin (s, g)
+  | ["del"; k] -> let (r, s, g) = resolve_k 'F' keys k in ODel (r, s, g)
+  | ["delmax"; k] -> let (r, s, g) = resolve_k 'M' keys k in ODelMax (r, s, g)
+  | ["delmin"; k] -> let (r, s, g) = resolve_k 'N' keys k in ODelMin (r, s, g)
+  | ["modmax"; k; ns] -> let (r, s, g) = resolve_k 'M' keys k in OModMax (r, s, g, z ns)
+  | ["modmin"; k; ns] -> let (r, s, g) = resolve_k 'N' keys k in OModMin (r, s, g, z ns)
+  | ["actmax"; k] -> let (r, s, g) = resolve_k 'M' keys k in OActMax (r, s, g)
+  | ["actmin"; k] -> let (r, s, g) = resolve_k 'N' keys k in OActMin (r, s, g)
   | ["run"; ns] -> ORun (z ns)
   | ["ne"] -> ONextExpiry
   | ["nw"; ns] -> ONextWait (z ns)
   | ["nwm"; ns; m; p] -> ONextWaitMax (z ns, z m, p = "1")
   | ["now"] -> ONow
   | ["pokeseq"; v] -> OPokeSeq (z v)
-  | ["pokegnn"; k; v] -> let (s, _) = resolve_k '*' keys k in OPokeGnn (s, z v)
+  | ["pokegnn"; k; v] -> let (_, s, _) = resolve_k '*' keys k in OPokeGnn (s, z v)
   | _ -> failwith ("bad op: " ^ String.concat " " ws)
 
 let out_to_string (o : tout) : string =
@@ -125,6 +131,9 @@ let dump (s : tstate) : string =
   Buffer.contents b
 
 let record_key keys idx (op : top) (o : tout) =
+  (match op, o with
+   | ONextExpiry, ROptNs r -> last_ne := r
+   | _ -> ());
   match o with
   | RKey (s, g) ->
     let c = (match op with OAddMax _ -> 'M' | OAddMin _ -> 'N' | _ -> 'F') in
@@ -139,7 +148,7 @@ let run_model () =
        match split line with
        | [] -> ()
        | "case" :: name ->
-         st := t_init; Hashtbl.reset keys; idx := 0; dead := false;
+         st := t_init; Hashtbl.reset keys; idx := 0; dead := false; last_ne := None;
          print_endline ("case " ^ String.concat " " name)
        | ["end"] -> print_endline "end"
        | ws ->
@@ -170,7 +179,7 @@ let run_monitor () =
        match split line with
        | [] -> ()
        | "case" :: name ->
-         ms := s_init; Hashtbl.reset keys; idx := 0; dead := false; pending_op := None;
+         ms := s_init; Hashtbl.reset keys; idx := 0; dead := false; pending_op := None; last_ne := None;
          print_endline ("case " ^ String.concat " " name)
        | ["end"] -> print_endline "end"
        | "=" :: res ->
